@@ -63,6 +63,7 @@ class Connection:
         self.msg_size: int = ExtendedMessage.INITIAL_SIZE
         # state of a read interrupted by a cancellation (see _reader_async / reader_async)
         self._partial_read: tuple[bytearray, int] | None = None
+        self._pending_recv: asyncio.Future[int] | None = None
         self._pending_header: memoryview | None = None
         self.defensive: bool = getenv().debug.defensive
 
@@ -99,6 +100,11 @@ class Connection:
         return -1
 
     def close(self) -> None:
+        if self._pending_recv is not None:
+            self._pending_recv.cancel()
+            self._pending_recv = None
+        self._partial_read = None
+        self._pending_header = None
         if not self.io:
             return
         log.warning(lazymsg('connection.closing name={n}', n=self.name()), source=self.session())
@@ -254,11 +260,24 @@ class Connection:
             try:
                 # asyncio.sock_recv_into() handles I/O waiting automatically via event loop
                 # This yields control to other tasks while waiting for data
+                # the receive itself is shielded: when the caller's timeout cancels this coroutine,
+                # a receive the event loop has already completed keeps its result and a pending
+                # one keeps waiting; the next call takes it over together with buffer and offset
+                if self._pending_recv is None:
+                    self._pending_recv = asyncio.ensure_future(loop.sock_recv_into(self.io, view[offset:]))
+                receive = self._pending_recv
                 try:
-                    nbytes = await loop.sock_recv_into(self.io, view[offset:])
+                    nbytes = await asyncio.shield(receive)
                 except asyncio.CancelledError:
-                    self._partial_read = (buffer, offset)
+                    if receive.cancelled():
+                        self._pending_recv = None
+                    else:
+                        self._partial_read = (buffer, offset)
                     raise
+                except BaseException:
+                    self._pending_recv = None
+                    raise
+                self._pending_recv = None
 
                 if not nbytes:
                     self.close()
